@@ -8,7 +8,7 @@
    transformation() followed by conversion_surface_params(). *)
 From Coq Require Import List ZArith Bool Reals Lra.
 From T4V Require Import Base.Scalar C04.Vec C04.Model C04.Spec C04.ProofsFrame C04.ProofsConvert
-  C04.ProofsQuad C04.ProofsSurf C04.ProofsMatrix C04.ProofsCard.
+  C04.ProofsQuad C04.ProofsSurf C04.ProofsMatrix C04.ProofsCard C04.ProofsTorus.
 Import ListNotations.
 Open Scope R_scope.
 
@@ -73,6 +73,17 @@ Theorem C04_frame_transform_cone_sheet : forall (o : R3) (b : M3 R) apex u c0 a 
     (mpos s p' <-> coll_pos [(cone, 1%Z); (plane, side)] (to_main o b p')).
 Proof. exact frame_transform_cone_sheet. Qed.
 Print Assumptions C04_frame_transform_cone_sheet.
+
+(* torus: [tvec b u] = B^T u is the moved axis; [torus_axis_ok]: it is exactly +- a
+   coordinate axis (TORUSX/Y/Z) or not within numpy.allclose of one (TORUSZ with a
+   TRANSFORM by the Rodrigues rotation); in between the code snaps the axis *)
+Theorem C04_frame_transform_torus : forall (o : R3) (b : M3 R) c u cp nap (p' : R3),
+  rows_orthonormal b -> norm2 u = 1 -> torus_axis_ok (tvec b u) ->
+  let s := mkMS KT c u cp nap in
+  exists t, tr_convert RS (vlist o ++ mlist b) s = Ok [(t, 1%Z)] /\
+            t4val t (to_main o b p') = msense s p'.
+Proof. exact frame_transform_torus. Qed.
+Print Assumptions C04_frame_transform_torus.
 
 (* ---------- abbreviated matrices ([rotation] = orthonormal rows, det = 1;
    [agrees pat b] = every supplied entry of the pattern is unchanged) ---------- *)
